@@ -179,10 +179,11 @@ def err_stat(case):
 def gen_pop_case(rng):
     n_sub = rng.choice([1, 1, 2, 3])
     subs = []
+    n_het = rng.choice([2, 3])            # heterogeneous sub-models of one composition share the individuals
     for _ in range(n_sub):
         kind, nd, centered = c05.gen_sub(rng)
         nd = min(nd, 2)
-        d = {'kind': kind, 'nd': nd, 'centered': centered, 'n_het': rng.choice([2, 3]) if kind == 'H' else None}
+        d = {'kind': kind, 'nd': nd, 'centered': centered, 'n_het': n_het if kind == 'H' else None}
         if rng.random() < 0.4:
             d['cov'] = {'n_cov': rng.choice([1, 2, 3]), 'sel': None if rng.random() < 0.5 else [[0, 0]]}
         subs.append(d)
